@@ -406,6 +406,8 @@ class Scn:
                 n = 1 if rng.random() < 0.7 else rng.choice([2, 3])
                 kinds = [rng.choice(["set", "set", "set", "select", "select", "begin", "begin", "reset", "resetall", "fail", "setinvalid", "commit",
                                      "copyin", "copyin", "copyout", "copyfail", "prepare", "prepdealloc", "deallocall", "deallocall", "discardall", "setrole", "setrole", "resetrole"]) for _ in range(n)]
+            if "copyin" in kinds and rng.random() < 0.6:
+                kinds.append("set")      # a SET behind the COPY in the same query string: its ParameterStatus comes with the reply to CopyDone
             # a failing statement only as the last one of a message; no SET LOCAL outside a block
             stmts = []
             st = c["txn"]
@@ -1177,6 +1179,15 @@ def check(run):
             evals += 1
             dist["pool_size_%d" % s.pool_size] += 1
             dist["pool_mode_" + s.mode] = dist.get("pool_mode_" + s.mode, 0) + 1
+            dist["near_equal_value_family_scenarios"] = dist.get("near_equal_value_family_scenarios", 0) + bool(s.family)
+            for op in s.ops:
+                if op[0] == "q":
+                    for x in op[2]:
+                        if x.get("copy"):
+                            dist["copy_in_exchanges_" + x["copy"]] = dist.get("copy_in_exchanges_" + x["copy"], 0) + 1
+                        for kw in ("PREPARE ", "DEALLOCATE", "DISCARD ALL", "SET ROLE", "COPY t TO"):
+                            if x["sql"].startswith(kw.encode()):
+                                dist["stmts_" + kw.strip().lower().replace(" ", "_")] = dist.get("stmts_" + kw.strip().lower().replace(" ", "_"), 0) + 1
             if s.het:
                 dist["heterogeneous_two_server_pools"] = dist.get("heterogeneous_two_server_pools", 0) + 1
                 used = {it["conn"] // 100 for it in o.order}
@@ -1208,6 +1219,7 @@ def check(run):
                     elif it["t"] == "clean":
                         dist["checkins_with_reset_all"] += bool(it["ra"])
                         dist["checkins_with_rollback"] += bool(it["rb"])
+                        dist["checkins_with_deallocate_all"] = dist.get("checkins_with_deallocate_all", 0) + bool(it.get("da"))
             # monitors: the property on the implementation's own trace
             for kind, text, flags in monitors(s, o):
                 classify(run, known, flags, kind, text, {"input": s.describe(), "monitor": kind, "scenario": s.to_json()})
@@ -1227,7 +1239,7 @@ def check(run):
     run.cov["rule"] = ("scenarios = %d hand-made (every value of the nasty list as startup value and through SET on one shared connection; scs=off together with a backslash value; "
                        "SET in committed / rolled-back / failed transactions; SET LOCAL; disconnect inside a transaction; untracked GUCs; COMMIT;SET in one message; session-mode pools; heterogeneous two-server pools (read-only reports / tracked defaults / both, per-connection differences); regressions of the repaired startup findings "
                        "D1-D3 (non-ASCII / any-case names / empty values at startup); the open finding D4) "
-                       "+ %d seeded random (2-3 clients, pool_size 1 or 2; 30%% on a two-server pool (primary + replica, default_role any, pool_size 2) whose servers / connections report different read-only parameters and/or different defaults of tracked GUCs, the mock refusing SET of read-only parameters with 55P02; pool_mode transaction (65%%) or session (35%%), 6-16 messages of 1-3 statements, startup sets over the five keys in any ASCII case incl. empty and non-ASCII values, values: words, quotes, backslashes, comment and "
+                       "+ %d seeded random (2-3 clients, pool_size 1 or 2; 30%% on a two-server pool (primary + replica, default_role any, pool_size 2) whose servers / connections report different read-only parameters and/or different defaults of tracked GUCs, the mock refusing SET of read-only parameters with 55P02; pool_mode transaction (65%%) or session (35%%), 6-16 messages of 1-3 statements, 30%% with near-equal value families on pool_size 1; statement mix incl. COPY FROM STDIN (CopyDone / CopyFail) / TO STDOUT, PREPARE, DEALLOCATE, DEALLOCATE ALL, DISCARD ALL, SET/RESET ROLE; startup sets over the five keys in any ASCII case incl. empty and non-ASCII values, values: words, quotes, backslashes, comment and "
                        "dollar markers, newlines, non-ASCII UTF-8, empty, up to 1.5 kB; 20 kB in a hand-made one). distinct = distinct (statement shape, backend tracked values) and (key, value) pairs seen in SET batches" % (nb, nrand))
     run.cov["samples"] = samples[:4]
     run.cov["input_distribution"] = dist
